@@ -8,7 +8,12 @@ from ...pack_version import PackVersionFeature
 from ...utils import convention_jmc_to_mc
 from ..jmc_function_mixin import EventMixin, ItemMixin
 from ...tokenizer import Token, TokenType
-from ...exception import JMCSyntaxException, JMCMissingValueError, JMCValueError
+from ...exception import (
+    JMCDecodeJSONError,
+    JMCSyntaxException,
+    JMCMissingValueError,
+    JMCValueError,
+)
 from ...datapack_data import GUI, SIMPLE_JSON_BODY, GUIMode, Item
 from ...datapack import DataPack
 from ..utils import (
@@ -1760,9 +1765,14 @@ class TextPropsHoverText(JMCFunction):
 
         @lru_cache()
         def inner(arg: str) -> SIMPLE_JSON_BODY:
-            text_to_show = json.loads(
-                self.format_text("text").replace(self.args["indexString"], arg)
-            )
+            try:
+                text_to_show = json.loads(
+                    self.format_text("text").replace(self.args["indexString"], arg)
+                )
+            except json.JSONDecodeError as error:
+                raise JMCDecodeJSONError(
+                    error, self.raw_args["text"].token, self.tokenizer
+                ) from error
             return {"action": "show_text", inner_key: text_to_show}
 
         self.add_formatted_text_prop(outer_key, inner, self.check_bool("local"))
@@ -1790,7 +1800,7 @@ class TextPropHoverItem(JMCFunction):
                 self.tokenizer,
             )
 
-        item_to_show = json.loads(self.args["item"])
+        item_to_show = self.load_arg_json("item")
 
         if self.datapack.version < PackVersionFeature.TEXT_COMPONENT:
             key = "hoverEvent"
@@ -1827,9 +1837,14 @@ class TextPropsHoverItem(JMCFunction):
 
         @lru_cache()
         def inner(arg: str) -> SIMPLE_JSON_BODY:
-            item_to_show = json.loads(
-                self.args["item"].replace(self.args["indexString"], arg)
-            )
+            try:
+                item_to_show = json.loads(
+                    self.args["item"].replace(self.args["indexString"], arg)
+                )
+            except json.JSONDecodeError as error:
+                raise JMCDecodeJSONError(
+                    error, self.raw_args["item"].token, self.tokenizer
+                ) from error
 
             if self.datapack.version < PackVersionFeature.TEXT_COMPONENT:
                 return {"action": "show_item", "contents": item_to_show}
@@ -1869,7 +1884,7 @@ class TextPropHoverEntity(JMCFunction):
                 self.tokenizer,
             )
 
-        entity_to_show = json.loads(self.args["entity"])
+        entity_to_show = self.load_arg_json("entity")
 
         if self.datapack.version < PackVersionFeature.TEXT_COMPONENT:
             key = "hoverEvent"
@@ -1906,9 +1921,14 @@ class TextPropsHoverEntity(JMCFunction):
 
         @lru_cache()
         def inner(arg: str) -> SIMPLE_JSON_BODY:
-            entity_to_show = json.loads(
-                self.args["entity"].replace(self.args["indexString"], arg)
-            )
+            try:
+                entity_to_show = json.loads(
+                    self.args["entity"].replace(self.args["indexString"], arg)
+                )
+            except json.JSONDecodeError as error:
+                raise JMCDecodeJSONError(
+                    error, self.raw_args["entity"].token, self.tokenizer
+                ) from error
 
             if self.datapack.version < PackVersionFeature.TEXT_COMPONENT:
                 return {"action": "show_entity", "contents": entity_to_show}
